@@ -16,6 +16,9 @@ fn profile() -> Profile {
         depth_weights: [75, 20, 4, 1],
         sched_pct: 20,
         wide_l1_pct: 25,
+        // headers listing fewer L1 entries than the virtual size needs (extended in place by the
+        // first write beyond them: a header rewrite that can fail)
+        l1_short_pct: 20,
         ..Profile::default()
     }
 }
@@ -41,7 +44,14 @@ impl Domain for FaultDomain {
         raw_strategy(16, profile().max_ops, 100, 24).boxed()
     }
     fn decode(&self, raw: &RawCase, _excl: &Exclusions) -> Value {
-        let seq = gen::decode_seq(raw, &profile()).case;
+        let mut seq = gen::decode_seq(raw, &profile()).case;
+        // L1 growth that needs more clusters than the short table owns is a known finding of C12
+        if super::c12::l1_short_overflows(&seq) {
+            if let crate::case::LayerSpec::Built(b) = &mut seq.layers[0] {
+                b.l1_short = false;
+                seq.excluded.push(super::c12::K_L1_GROWTH.to_string());
+            }
+        }
         let mut s = Src::new(&raw.extra);
         let mode = if self.enumerate {
             FaultMode::EnumerateSingles {
@@ -118,6 +128,7 @@ impl Domain for FaultDomain {
         add(st.leaks_tolerated > 0, "leak_tolerated");
         add(st.uncertain_blocks > 0, "failed_write_left_uncertain_blocks");
         add(case.seq.layers.len() > 1, "backing_chain");
+        add(matches!(&case.seq.layers[0], crate::case::LayerSpec::Built(b) if b.l1_short), "header_lists_fewer_l1_entries");
         add(
             case.seq.layers[0].vsize().div_ceil(1u64 << (2 * case.seq.layers[0].cluster_bits() as u32 - 3)) > 64,
             "l1_spans_several_blocks",
@@ -126,7 +137,7 @@ impl Domain for FaultDomain {
             verdict,
             nontrivial: st.failed_meta_or_fsync > 0 && st.reopen_compares > 0,
             classes,
-            excluded: vec![],
+            excluded: case.seq.excluded.clone(),
             counters: vec![("fault_runs".into(), st.runs), ("faults_injected".into(), st.injected), ("reopen_compares".into(), st.reopen_compares)],
         }
     }
